@@ -41,6 +41,11 @@ def judge(sc, j):
         whole.append("the destination directory is recorded as a file")
     if taken and (cmd == "move" or not it[3].endswith("/")):
         whole.append("the destination is already tracked")
+    # (after the repair of P4) an untracked file, link or directory at a destination is never replaced without --force
+    def in_ws(d):
+        return d in prev["ws"] or any(q.startswith(d + "/") for q in prev["ws"])
+    if not force and any(in_ws(d) for p, d in pairs if (p, d) not in taken):
+        whole.append("something untracked is at the destination")
     if whole:
         if cur["oc"] == "Ok":
             bad.append(("%s %s -> %s reported success although %s" % (cmd, it[2], it[3], whole[0]), None))
@@ -130,4 +135,4 @@ def run(chk, replay=None):
         "4 algorithms, 4 recheck methods, then 4-9 steps of new versions / uncommitted edits / deletions / recheck and copy / move with sources {file, dir/, glob}, destinations {new file with the same or another extension, new dir/, tracked path}, "
         "--as, --force, --no-recheck, --name-only, followed half of the time by deleting and rechecking the destination; every copy / move is judged from the store event logs, the object set and the workspace bytes. "
         "non-trivial = the history contains a copy or move that selected at least one tracked source and succeeded; distinct by the whole history",
-        n_quick=70, n_thorough=700, theorem_names=THEOREMS)
+        n_quick=200, n_thorough=1500, theorem_names=THEOREMS)
